@@ -27,22 +27,6 @@ Proof. reflexivity. Qed.
 Lemma ser_obj_eq p ms : ser p (VObj ms) = ser_obj p ms.
 Proof. reflexivity. Qed.
 
-(* values whose serialisation determines them: no empty array or object below the top, member
-   names unique within an object *)
-Definition keys_of {A} (l : list (string * A)) : list string := map fst l.
-Fixpoint wfv (v : dval) : Prop :=
-  match v with
-  | VPrim _ => True
-  | VArr l => l <> [] /\ (fix go (l : list dval) : Prop := match l with [] => True | x :: r => wfv x /\ go r end) l
-  | VObj ms => ms <> [] /\ NoDup (map fst ms) /\
-               (fix go (ms : list (string * dval)) : Prop := match ms with [] => True | (_, x) :: r => wfv x /\ go r end) ms
-  end.
-Fixpoint wf_all (l : list dval) : Prop := match l with [] => True | x :: r => wfv x /\ wf_all r end.
-Fixpoint wf_members (ms : list (string * dval)) : Prop := match ms with [] => True | (_, x) :: r => wfv x /\ wf_members r end.
-Lemma wfv_arr l : wfv (VArr l) = (l <> [] /\ wf_all l).
-Proof. reflexivity. Qed.
-Lemma wfv_obj ms : wfv (VObj ms) = (ms <> [] /\ NoDup (map fst ms) /\ wf_members ms).
-Proof. reflexivity. Qed.
 
 (* setting a tree at a path: what a sequence of deepSet calls for the leaves of the tree amounts to *)
 Definition fold_set (m : list (string * ptree)) (l : list (list string * string)) : list (string * ptree) :=
@@ -233,15 +217,15 @@ Section ROUNDTRIP.
      names, every well-formed object value of any depth and its reading p, the properties of the
      serialised value (in serialisation order) are decoded to p *)
   Theorem make_object_roundtrip : forall s ms p,
-    names_ok s = true -> wfv (VObj ms) -> texts_ok (ser [] (VObj ms)) = true ->
+    names_ok s = true -> wfv (VObj ms) -> nek (VObj ms) -> texts_ok (ser [] (VObj ms)) = true ->
     reading parse_int64 parse_int32 parse_float s (VObj ms) = Some p ->
     exists tree, mk_tree (ser [] (VObj ms)) = Some tree /\
                  build parse_int64 parse_int32 parse_float atoi tree s [] "" = BOk p.
   Proof.
-    intros s ms p Hn Hw Ht Hr.
+    intros s ms p Hn Hw Hne Ht Hr.
     exists (obj_kids ms). split.
     - unfold mk_tree. rewrite (mk_tree_fold _ [] Ht). f_equal. apply (fold_set_ser (VObj ms) Hw).
-    - apply (build_reading parse_int64 parse_int32 parse_float atoi atoi_itoa s Hn (VObj ms) p (obj_kids ms) [] "").
+    - apply (build_reading parse_int64 parse_int32 parse_float atoi atoi_itoa s Hn (VObj ms) p (obj_kids ms) [] "" Hw Hne).
       + reflexivity.
       + exact Hr.
   Qed.
